@@ -18,6 +18,7 @@ def genFacts : Facts :=
     limitNames := Generated.reprlibLimitNames
     limitTable := Generated.bbreprLimits
     fillvalue := Generated.bbreprFillvalue
-    reprIsReprlib := Generated.bbreprIsReprlib }
+    reprIsReprlib := Generated.bbreprIsReprlib
+    segRepr := Generated.fmtSegRepr }
 
 end Glom.C18
